@@ -18,7 +18,7 @@ map() { # subject -> checks
     *"clear() resets"*|*"run() removes"*) echo C17 ;;
     *"no longer freed twice"*) echo "C17 C04" ;;
     *"self-referential"*|*"max_instr = 0"*|*"declaring a local"*|*"wrap around"*) echo C04 ;;
-    *"function values compare equal"*) echo "C04" ;;
+    *"function values compare equal"*) echo "C04 C07" ;;
     *"dynamic call like"*|*"repeat count"*|*"first trace entry"*) echo C15 ;;
     *"iterate over a private copy"*) echo C04 ;;
     *"insert_value keeps"*) echo C02 ;;
